@@ -36,6 +36,14 @@ CHECKS = {
         'Falsified wrapper verdicts are attributed to F2 by the model counterfactual (true table size); anything else is a VIOLATION.',
    note=COMMON_NOTE + 'Known finding F2 open at the wrapper entry point. Observation (not a violation): seg_cant_blank can never answer refuted (incomplete, not unsound).',
    tech='Rocq/Coq refutation + monotonicity theorems; model/implementation correspondence; extracted-spec oracle exploration'),
+ 'C06': dict(cat='other', sec='DESIGN.md §6 C06, §5 F2',
+   text='Interim: the Gallina model of cps.rs (processing order of the HashSet made an explicit parameter) is tied to the code on every run; the closed-set soundness proof '
+        '(true => never halts / never erases / never spins out, for every processing order, under the table-size guard dims_ok for the halt early exit) is in progress. '
+        'Machine-checked now: the F2 refutation C06_cps_true_refuted_F2. The property is decided on the explored programs: every `true` of the implementation is tested against a '
+        'real run (native pre-filter, confirmed by the extracted cell-by-cell spec); falsified answers are attributed to F2 when no closure pass of the model closes (the answer came '
+        'from the early exit halt_slots().is_empty()); anything else is a VIOLATION.',
+   note=COMMON_NOTE + 'Known finding F2 open. The boolean can depend on the hash order only through MAX_LOOPS/MAX_DEPTH (then the answer is false, which claims nothing).',
+   tech='Rocq/Coq refutation theorem (soundness proof in progress); model/implementation correspondence; extracted-spec oracle exploration'),
  'C07': dict(cat='proof', sec='DESIGN.md §6 C07',
    text='Coq theorem C07_rec_sound over the Gallina model of quick_term_or_rec/aligns_with/compare_take: for every normal-form program and EVERY '
         'cycle limit, Recur implies the real machine never halts AND never spins out, Spinout implies it spins out, Undefined(slot) implies it halts exactly there. '
